@@ -3,13 +3,15 @@
 Usage:  python c13_driver.py  < config.json  > result.json      (PYTHONPATH must point at the twisted tree)
 
 config = {"reactor": "select|poll|epoll|asyncio", "clock": "real|ms", "timer": 0|seconds,
-          "producers": [[[kind, usec], ...], ...], "lat_unit_ms": int, "grace_ms": int,
+          "producers": [[[kind, usec] or [kind, usec, 1], ...], ...], "lat_unit_ms": int, "grace_ms": int,
           "cb_yield": N (every N-th callback gives up the GIL for a moment, so that producers run -- and enqueue --
                          while the reactor is in the middle of running queued calls; 0 = never),
           "switch_us": thread switch interval of the interpreter in microseconds (0 = default 5000)}
    kind 0: sleep usec microseconds (0 = no pause), then issue the call
    kind 1: wait until every call issued so far (by anybody) has run, sleep usec more (the reactor is now
            asleep in its event wait with nothing to do), then issue the call
+   a third element 1 makes the issued callable raise an exception after it has recorded that it ran (the reactor
+   logs such failures; a call that raised has still run exactly once)
 
 Only observable things are recorded: which thread ran the callback, its arguments, the time since the
 callFromThread call was made.  The reactor has no timers and no other descriptors of ours (unless
@@ -71,7 +73,10 @@ def main():
     excs = [0] * (np_ + 1)        # supervisor thread, whose single call stops the reactor
     result_written = threading.Event()
 
-    def cb(p, i, idle, t0, then=None):
+    class CallRaised(Exception):
+        pass
+
+    def cb(p, i, idle, t0, then=None, raises=False):
         t = time.monotonic()
         log.append((p, i, "R" if threading.get_ident() == main_ident else "T", idle, min(3, int((t - t0) / lat_unit))))
         ran_total[0] += 1
@@ -79,20 +84,23 @@ def main():
             time.sleep(0.00005 if ran_total[0] % (2 * cb_yield) else 0)     # the callback does a little blocking work
         if then is not None:
             then()
+        if raises:
+            raise CallRaised("call %d of producer %d raises" % (i, p))
 
-    def issue(p, k, then=None):
+    def issue(p, k, then=None, raises=False):
         with lock:
             idle = issued_total[0] == ran_total[0]
             issued_total[0] += 1
         t0 = time.monotonic()
         try:
-            reactor.callFromThread(cb, p + 1, k + 1, idle, t0, then)
+            reactor.callFromThread(cb, p + 1, k + 1, idle, t0, then, raises)
             issued[p] += 1
         except BaseException:
             excs[p] += 1
 
     def producer(p):
-        for k, (kind, usec) in enumerate(scripts[p]):
+        for k, ent in enumerate(scripts[p]):
+            kind, usec = ent[0], ent[1]
             if kind == 1:
                 deadline = time.monotonic() + 2.0
                 while issued_total[0] != ran_total[0] and time.monotonic() < deadline:
@@ -101,7 +109,7 @@ def main():
                 time.sleep(usec / 1e6)
             elif kind == 0 and (k & 7) == 7:
                 time.sleep(0)
-            issue(p, k)
+            issue(p, k, None, len(ent) > 2 and bool(ent[2]))
 
     threads = [threading.Thread(target=producer, args=(p,), daemon=True) for p in range(np_)]
 
